@@ -42,6 +42,9 @@ pub struct BelowCase {
   /// distinct target shares: t-1 minus idx(less, t-1) (so 0 means t-1)
   pub less: u16,
   pub dups: Vec<(u16, u16)>,
+  /// duplicates get a fresh evaluation point written over their x (defeats de-duplication by x)
+  #[serde(default)]
+  pub relabel: bool,
   pub foreign: Vec<Foreign>,
   /// rewrite the threshold recorded in target shares: (selector for the value, apply to all?)
   pub forge: Option<(u16, bool)>,
@@ -51,23 +54,30 @@ pub struct BelowCase {
   pub front: bool,
 }
 
+/// thresholds next to 8- and 9-bit boundaries (a sharing of degree t-1 is materialised, so these stay small)
+fn boundary_t() -> BoxedStrategy<u32> {
+  prop_oneof![Just(255u32), Just(256u32), Just(257u32), Just(258u32)].boxed()
+}
+
 fn below_strat(tier: Tier) -> BoxedStrategy<BelowCase> {
   let tmax = tier.pick(40u32, 130u32);
   (
-    (bytes(300), bytes(24), prop_oneof![3 => 2u32..9, 2 => 9u32..33, 1 => 33u32..tmax + 1]),
+    (bytes(300), bytes(24), prop_oneof![30 => 2u32..9, 20 => 9u32..33, 10 => 33u32..tmax + 1, 1 => boundary_t()]),
     prop_oneof![3 => Just(0u16), 1 => any::<u16>()],
     vec((any::<u16>(), any::<u16>()), 0..5),
+    any::<bool>(),
     vec((0u8..3, 2u32..7, any::<u16>(), prop::bool::weighted(0.25)).prop_map(|(kind, t, count, reaches)| Foreign { kind, t, count, reaches }), 0..4),
     proptest::option::weighted(0.5, (any::<u16>(), any::<bool>())),
     vec((any::<u16>(), any::<u16>()), 0..8),
     any::<bool>(),
   )
-    .prop_map(|((m, epoch, t), less, dups, foreign, forge, swaps, front)| BelowCase {
+    .prop_map(|((m, epoch, t), less, dups, relabel, foreign, forge, swaps, front)| BelowCase {
       m,
       epoch,
       t,
       less,
       dups,
+      relabel,
       foreign,
       forge,
       swaps,
@@ -112,10 +122,33 @@ fn below_oracle(c: &BelowCase, st: &mut Stats) -> Result<(), String> {
       }
     }
   }
-  for (src, at) in &c.dups {
-    let v = coll[idx(*src, coll.len())].clone();
+  for (k, (src, at)) in c.dups.iter().enumerate() {
+    let mut v = coll[idx(*src, coll.len())].clone();
+    if c.relabel {
+      // same share value under another evaluation point: pads the count of distinct x
+      if let Some(f) = layout::share_fields(&v.0) {
+        let x = le24(&BigUint::from(1_000_003u64 + 7919 * k as u64 + *src as u64));
+        let r = f.x();
+        v.0[r].copy_from_slice(&x);
+      }
+    }
     let pos = idx(*at, coll.len() + 1);
     coll.insert(pos, v);
+  }
+  // when the padding is relabelled, pad all the way up to the threshold
+  if c.relabel {
+    let mut k = 0u64;
+    while coll.len() < t as usize + 1 && k < 2 * t as u64 {
+      let mut v = coll[(k as usize) % d].clone();
+      if let Some(f) = layout::share_fields(&v.0) {
+        let x = le24(&BigUint::from(2_000_003u64 + k));
+        let r = f.x();
+        v.0[r].copy_from_slice(&x);
+      }
+      coll.push(v);
+      k += 1;
+    }
+    st.class("padding-relabelled-to-threshold");
   }
   // foreign groups
   let mut reaching: Vec<(usize, Vec<u8>)> = Vec::new(); // (group id, its message)
@@ -221,7 +254,7 @@ pub struct ScanCase {
 }
 
 fn scan_strat(tier: Tier) -> BoxedStrategy<ScanCase> {
-  (bytes(tier.pick(1200, 8000)), bytes(24), prop_oneof![4 => 2u32..9, 2 => 9u32..33, 1 => 33u32..65], proptest::option::of(bytes(400)))
+  (bytes(tier.pick(1200, 8000)), bytes(24), prop_oneof![40 => 2u32..9, 20 => 9u32..33, 10 => 33u32..65, 1 => boundary_t()], proptest::option::of(bytes(400)))
     .prop_map(|(m, epoch, t, aux)| ScanCase { m, epoch, t, aux })
     .boxed()
 }
@@ -317,7 +350,7 @@ pub struct PolyCase {
 
 fn poly_strat(tier: Tier) -> BoxedStrategy<PolyCase> {
   let tmax = tier.pick(48u32, 130u32);
-  (vec((bytes(100), bytes(12)), 1..4), prop_oneof![1 => Just(2u32), 5 => 3u32..10, 2 => 10u32..33, 1 => 33u32..tmax + 1], 1u8..4)
+  (vec((bytes(100), bytes(12)), 1..4), prop_oneof![10 => Just(2u32), 50 => 3u32..10, 20 => 10u32..33, 10 => 33u32..tmax + 1, 2 => boundary_t()], 1u8..4)
     .prop_map(|(ms, t, extra)| PolyCase { ms, t, extra })
     .boxed()
 }
